@@ -59,6 +59,11 @@ CHECKS = {
     technique='deviation-bounded exhaustive enumeration of constructible codec values (shape registry discovered from the constructors: presence lattice + value sweeps per class, boundary menus for primitives, request and server-emitted response messages) x 6 KMIP versions, judged by round-trip, idempotence, purity and an independent TTLV implementation',
     text='For each of 155 encodable structure/payload classes the value universe is discovered from the library itself (every constructor parameter is offered a typed universal menu; parameters without validation take the class their reader instantiates; attribute values come from a hand list). Enumerated per class and per KMIP version 1.0-2.0: all subsets of optional fields (n <= 10, else sizes 0,1,2,n-1,n) and every parameter through every admissible candidate with the other fields once absent and once full (about 50k round trips). Oracles: decoding the encoding succeeds, re-encoding reproduces the bytes, the decoded value equals the original by the class\'s own __eq__ (modulo fields the version does not define, proven by another version writing them), a set field reaches the wire under some version, encoding does not change the value (same bytes again after all versions). Primitives: hand-written boundary menus (length mod 8, sign/width boundaries, non-ASCII) under three tags, byte-identical to an independent TTLV encoder. Whole request messages for 34 operation shapes x header variants, and every response a real server emitted for a 52-request history, are decoded/encoded/decoded.',
     note='A refusal to encode (exception) is accepted for structures because per-field version tables are not modelled here (C16 covers the version-conditional fields the server uses); it is a violation for primitives. Classes without __eq__ are compared through their re-encoding. Values outside the discovered menus are not covered.'),
+ 'C02': dict(
+    category='exploration', design_ref='DESIGN.md 4/C02',
+    technique='exhaustive enumeration of emitted byte strings (C01 value universe x 6 versions; every response of a real session+engine over a history set covering all operations, error classes, rejections and failures x 6 versions) judged by an independent strict TTLV parser and envelope rules',
+    text='(i) Every successful encoding of the C01 value universe (presence lattice and single-field sweeps of 155 classes under KMIP 1.0-2.0, about 14k byte strings) must be accepted by the independent strict parser (3-byte tag in 42xxxx/54xxxx, known type, fixed lengths for fixed-size types, zero padding to 8, structure length equal to its children, no trailing bytes) and re-encode canonically to the same bytes. (ii) For each version a real session+engine answers an ~85-request history: every operation succeeding, every error class (not found, permission, invalid field, illegal operation, wrong state, cryptographic failure, general failure, key format/compression, unsupported operation, index), batches with stop/continue, request-level rejections (Undo, asynchronous, stale/future timestamp, missing batch ID), undecodable frames, certificate/identity failures and oversize replacement. Every response must be strict TTLV and follow the envelope: header with exactly one protocol version, timestamp and batch count, count equal to the number (>= 1) of batch items, each item with a result status and with reason and message exactly when the status is not Success; the header version echoes the request whenever the library\'s own decoder accepts the frame and the version is supported.',
+    note='The independent parser is the trusted reading of the TTLV definition. BigInteger length minimality is not demanded. For frames the server cannot decode and for certificate-stage failures only a supported version is demanded in the header. The other server checks (C08, C12, C13, C16) parse every response with the same strict parser as well.'),
 }
 
 NOT_YET = {}
